@@ -27,7 +27,7 @@ RULE = ("histories of server events (PUT creating a dynamic resource, DELETE, GE
 WRAPS = ["coap_ticks", "coap_socket_send", "coap_socket_recv", "fopen", "fread", "fwrite",
          "fprintf", "fgets", "fflush", "fclose", "rename", "remove", "coap_malloc_type",
          "coap_free_type"]
-PORT = 35683
+PORT = 35683          # default; main() replaces it by a UDP port that is free right now
 
 
 def run_driver(exe, lines, scratch, timeout=1800):
@@ -83,6 +83,20 @@ def first_diff(a, b):
     return "equal"
 
 
+def free_udp_port():
+    import socket
+    for _ in range(20):
+        sk = socket.socket(socket.AF_INET, socket.SOCK_DGRAM)
+        try:
+            sk.bind(("127.0.0.1", 0))
+            p = sk.getsockname()[1]
+        finally:
+            sk.close()
+        if 20000 <= p <= 60000:
+            return p
+    return 35683
+
+
 def gen_cases(run, layout, n_hist, n_raw):
     r = tie.rng_for(run, "c17")
     lines, kinds = [], []
@@ -93,13 +107,15 @@ def gen_cases(run, layout, n_hist, n_raw):
         hg = g.HistGen(r, max_events=r.choice([4, 6, 9, 12]))
         evs = hg.gen()
         cfg = r.choice(["doc"] * 6 + ["do-", "d-c", "-oc", "d--", "-o-", "--c"])
-        buf = r.choice("LLE")
+        # D = the C library's own buffering (only the persistent files are compared then)
+        buf = r.choice("LLE") if run.tier == "quick" else r.choice("LLEED")
         freq = (i % 10) + 1
         lines.append(g.case_line(layout, "E", buf, freq, cfg, PORT, evs))
         kinds.append("history")
     for i in range(n_raw):
-        evs = g.raw_history(r, layout)
-        lines.append(g.case_line(layout, "E", r.choice("LE"), r.randint(1, 10), "doc", PORT, evs))
+        evs = g.raw_history(r, layout, big=(run.tier != "quick" and i % 25 == 0))
+        lines.append(g.case_line(layout, "E", r.choice("LE") if run.tier == "quick" else r.choice("LED"),
+                                 r.randint(1, 10), "doc", PORT, evs))
         kinds.append("raw")
     return lines, kinds
 
@@ -126,6 +142,8 @@ def main(run):
     run.prove()
     model = vlib.build_model()
     drv = vlib.build_driver("h_persist", ["h_persist.c"], wraps=WRAPS)
+    global PORT
+    PORT = free_udp_port()
     scratch_root = os.path.join(vlib.BUILD, "persist-scratch")
     shutil.rmtree(scratch_root, ignore_errors=True)
     lay_out, _ = run_driver(drv, ["layout %d" % PORT], os.path.join(scratch_root, "layout"))
@@ -137,7 +155,16 @@ def main(run):
                       lay_out[0], tag="layout", no_input=True)
         return
     quick = run.tier == "quick"
-    lines, kinds = gen_cases(run, layout, 36 if quick else 600, 24 if quick else 400)
+    if getattr(run, "replay", None):
+        # --replay <file written by an earlier run>: only the case of that file
+        lines, kinds = [], []
+        for ln in open(run.replay):
+            if ln.startswith("case: "):
+                short = ps_oracle.strip_layout(ln[6:].strip())
+                lines.append(ps_oracle.with_layout(short, layout, PORT))
+                kinds.append("replay")
+    else:
+        lines, kinds = gen_cases(run, layout, 36 if quick else 600, 24 if quick else 400)
     workers = 4
     oc, ncrash = run_parallel(drv, lines, scratch_root, workers)
     om = model_parallel(model, lines, workers)
